@@ -31,7 +31,7 @@ type refCSS struct {
 	ambiguous bool
 	quirkTok  int    // index of the token in which the quirk occurs
 	quirk     string // the input contains a construct on which the library's own tests pin a deviation from the specification
-	badString bool // a raw newline ended a string
+	badString bool   // a raw newline ended a string
 	badURL    bool
 }
 
